@@ -47,6 +47,10 @@ def run(prog: Program) -> Results:
 
         def is_stack(n):
             t = _stmt_text(n)
+            if n.kind == "stmt" and isinstance(n.ast, (ast.Assign, ast.AnnAssign, ast.AugAssign)) and getattr(n.ast, "value", None) is not None:
+                tg = n.ast.targets[0] if isinstance(n.ast, ast.Assign) else n.ast.target
+                if norm(tg) == list_name and ".stack" in norm(n.ast.value):
+                    return True  # the list is initialised / extended from the stacked layers
             return (n.kind == "stmt" and (t.startswith(f"{list_name}.extend(") or t.startswith(f"{list_name}.append("))
                     and stack_marker(n)) or (n.kind == "for" and "stack" in norm(n.ast.iter) and any(
                         isinstance(c, ast.Call) and norm(c.func) == f"{list_name}.append" for c in ast.walk(n.ast)))
